@@ -461,6 +461,45 @@ func (s *Sim) CheckArith() {
 			panic("chainsim: model work not increasing")
 		}
 	}
+	// drawn compact values: powers of two, one-byte mantissas, tiny and huge
+	// exponents, the sign bit, zero
+	for i := 0; i < 6; i++ {
+		c := r.C
+		exp := uint32(c.Intn(0x23, "ar-exp"))
+		var mant uint32
+		switch simkit.Pick(c, "ar-mant", 3, 3, 2, 1, 1) {
+		case 0:
+			mant = 1 << uint(c.Intn(23, "ar-bit")) // a power of two
+		case 1:
+			mant = uint32(c.Intn(0x800000, "ar-mant-any"))
+		case 2:
+			mant = 1<<uint(c.Intn(23, "ar-bit")) - 1
+		case 3:
+			mant = 0
+		default:
+			mant = 0x800000 | uint32(c.Intn(0x800000, "ar-mant-neg")) // sign bit set
+		}
+		bits := exp<<24 | mant
+		wantT, neg, _ := compactToBig(bits)
+		if neg {
+			wantT.Neg(wantT)
+		}
+		if gotT := blockchain.CompactToBig(bits); gotT.Cmp(wantT) != 0 {
+			r.Violate("C09", "compact-to-big", "", "CompactToBig(%08x)=%x want %x", bits, gotT, wantT)
+		}
+		if !neg && wantT.Sign() > 0 {
+			if back := blockchain.BigToCompact(wantT); back != bigToCompact(wantT) {
+				r.Violate("C09", "big-to-compact", "", "BigToCompact(%x)=%08x want %08x", wantT, back, bigToCompact(wantT))
+			}
+			if again := blockchain.CompactToBig(blockchain.BigToCompact(wantT)); again.Cmp(wantT) != 0 && wantT.BitLen() <= 23 {
+				r.Violate("C09", "big-to-compact", "", "CompactToBig(BigToCompact(%x))=%x", wantT, again)
+			}
+		}
+		if gw := blockchain.CalcWork(bits); gw.Cmp(workOf(bits)) != 0 {
+			r.Violate("C09", "calc-work", "", "CalcWork(%08x)=%v want %v", bits, gw, workOf(bits))
+		}
+		r.Probe("arith-drawn-compact")
+	}
 	// subsidy schedule of this network and the 21M bound on mainnet's schedule
 	p := w.Net.Params()
 	for h := int32(0); h <= tip.Height+2; h++ {
